@@ -1,7 +1,7 @@
 (* Executable form of C13 (parallel_for honours the granularity contract), evaluated on what the IMPLEMENTATION
    did, plus the Gallina domain predicate of the known finding.  No proofs here. *)
 From Coq Require Import ZArith List Bool.
-From DV Require Import Base.MachInt Base.Corr Model.ChunkModel Gen.GenChunk Model.ParForModel Model.DynModel Model.StripeModel.
+From DV Require Import Base.MachInt Base.Corr Model.ChunkModel Gen.GenChunk Model.ParForModel Model.DynModel Model.StripeModel Model.C12Check.
 Import ListNotations.
 Local Open Scope Z_scope.
 
@@ -29,8 +29,9 @@ Definition c13_misaligned_domain (c : pfcfg) : bool :=
 (* 0 = equals the model's plan and honours the contract; 1 = honours it but differs from the plan;
    2 = contract broken outside the known-finding domain; 11 = contract broken inside it;
    3 = no recorded invocations to judge (body overran; C12's business) *)
-Definition judge_c13 (x : pfcfg * Z * bool * list (Z * Z)) : Z :=
-  let '(cfg, l3, overrun, impl) := x in
+Definition judge_c13 (x : pfcfg * Z * bool * list (Z * Z * Z)) : Z :=
+  let '(cfg, l3, overrun, runs) := x in
+  let impl := expand_runs runs in
   if overrun then 3 else
   if negb (gran_okb (c13_gran cfg) (pf_e cfg) impl) then
     if c13_misaligned_domain cfg then 11 else 2
@@ -38,3 +39,5 @@ Definition judge_c13 (x : pfcfg * Z * bool * list (Z * Z)) : Z :=
        | Some m => if zpairs_eqb m impl then 0 else 1
        | None => 1
        end.
+
+Definition judge_c13_flat (l : list Z) : Z := judge_c13 (decode_case l).
